@@ -111,7 +111,8 @@ struct Subject
     LD eps = 0;    // machine epsilon of the solver's scalar type
     VecCL ref;     // reference spectrum of A (long double dense solver)
     LD normA = 0;  // ||A||_2 (Hermitian: max |lambda|) or Frobenius norm
-    LD norm_shifted = 0, cond_shifted = 1, min_dist = 1;  // ||A - sigma I||, its condition number, min |lambda_j - sigma|
+    LD norm_shifted = 0, cond_shifted = 1, inv_norm_shifted = 1;  // ||A - sigma I||, its condition number, ||(A - sigma I)^{-1}||
+    LD normM = 0;                                                 // complex shift: ||(A - sigma)(A - conj sigma)||
     std::vector<VecCL> starts;                            // start vectors (Iv_j alphabet)
     int extra_calls_per_compute = 0;                      // operator applications outside the counted iteration
 };
@@ -174,9 +175,21 @@ struct Counted : Base
         }
 #endif
     }
+    // shift-solve operators: applications made while a shift other than the first installed one is in force (the
+    // probe solves of the complex-shift solver's post-processing) are counted separately
+    mutable std::vector<long double> home_shift, cur_shift;
+    mutable long off_calls = 0;
+    template <class... A>
+    void set_shift(const A&... a)
+    {
+        cur_shift = {static_cast<long double>(a)...};
+        if (home_shift.empty()) home_shift = cur_shift;
+        Base::set_shift(a...);
+    }
     void perform_op(const Scalar* x, Scalar* y) const
     {
-        calls++;
+        if (cur_shift != home_shift) off_calls++;
+        else calls++;
         validate(x, y);
         Base::perform_op(x, y);
     }
@@ -404,16 +417,21 @@ struct Explorer
         std::vector<int> hist;
         uint64_t canon;
     };
+    // C06: after the merged search, every distinct reachable state h is followed by every (init, compute) pair of the
+    // alphabet WITHOUT merging, so that hidden state which the canonical hash cannot see (a new member that init()
+    // does not reset, a static) still shows up as a different outcome of the observed init(v); compute(args) pair
+    bool tail_pairs = false;
     void run()
     {
         std::set<uint64_t> seen;
-        std::vector<Node> frontier, next;
+        std::vector<Node> frontier, next, all_nodes;
         {
             I fresh(S);
             L.traces++;
             uint64_t c = fresh.canon();
             seen.insert(c);
             frontier.push_back({{}, c});
+            all_nodes.push_back({{}, c});
             Obs o = fresh.observe();
             oracle({}, o, o, fresh);
         }
@@ -442,11 +460,42 @@ struct Explorer
                     h2.push_back(oi);
                     oracle(h2, before, after, inst);
                     uint64_t c = inst.canon();
-                    if (seen.insert(c).second) next.push_back({h2, c});
+                    if (seen.insert(c).second)
+                    {
+                        next.push_back({h2, c});
+                        all_nodes.push_back({h2, c});
+                    }
                 }
             frontier.swap(next);
             L.count("frontier_depth" + num(d), frontier.size());
         }
+        if (tail_pairs)
+            for (const Node& nd : all_nodes)
+                for (int ii = 0; ii < int(ops.size()); ii++)
+                {
+                    if (ops[ii].type != OP_INIT0 && ops[ii].type != OP_INITV) continue;
+                    for (int ci = 0; ci < int(ops.size()); ci++)
+                    {
+                        if (ops[ci].type != OP_COMPUTE) continue;
+                        I inst(S);
+                        L.traces++;
+                        for (int h : nd.hist)
+                        {
+                            inst.apply(ops[h]);
+                            L.transitions++;
+                        }
+                        std::vector<int> h2 = nd.hist;
+                        Obs before = inst.observe();
+                        Obs a = inst.apply(ops[ii]);
+                        h2.push_back(ii);
+                        oracle(h2, before, a, inst);
+                        Obs b = inst.apply(ops[ci]);
+                        h2.push_back(ci);
+                        oracle(h2, a, b, inst);
+                        L.transitions += 2;
+                        L.count("tail_pairs_run");
+                    }
+                }
         L.count("states_by_construction", seen.size());
     }
 };
@@ -478,23 +527,49 @@ inline void oracle_pairs(const Subject& S, const OpDesc& op, const Obs& o, Repor
             R.v("nonfinite", "pair " + num(i) + " is not finite");
             continue;
         }
-        LD nb = 1e3L * u;
+        LD nb = 5e3L * u;  // the diagonal of the Gram matrix at the 1e4*eps orthonormality allowance
         L.ratio("unit_norm", std::abs(nx - 1) / nb);
         if (!(std::abs(nx - 1) <= nb)) R.v("unit-norm", "pair " + num(i) + " ||x||-1=" + gnum(nx - 1));
         const LD r = (S.A * x - th * x).norm();
         LD bound;
         if (S.shift_mode == 0)
             bound = op.tol * std::max(eps23, std::abs(th)) + 1e3L * u * S.normA;
-        else
+        else if (S.shift_mode == 1)
         {
             // nu = 1/(theta - sigma) is the iterated value; A x - theta x = -(A - sigma I) r_nu / nu
             const LD d = std::abs(th - S.sigma);
-            LD d2 = d;
-            if (S.shift_mode == 2) d2 = std::min(d, std::abs(th - std::conj(S.sigma)));
-            const LD anu = d2 > 0 ? 1 / d2 : std::numeric_limits<LD>::infinity();
-            const LD kap = std::max<LD>(1, d2 / S.min_dist);
-            bound = op.tol * std::max(eps23, anu) / anu * S.norm_shifted * (S.shift_mode == 2 ? 4 : 1) +
-                1e3L * u * kap * S.cond_shifted * S.norm_shifted;
+            const LD anu = d > 0 ? 1 / d : std::numeric_limits<LD>::infinity();
+            const LD kap = std::max<LD>(1, d * S.inv_norm_shifted);
+            bound = op.tol * std::max(eps23, anu) / anu * S.norm_shifted + 1e3L * u * kap * S.cond_shifted * S.norm_shifted;
+        }
+        else
+        {
+            // complex shift: Op = Re (A - sigma)^{-1}, nu(lambda) = ((1/(lambda-sigma)) + 1/(lambda-conj sigma))/2 and
+            // (A - sigma)(A - conj sigma)(Op x - nu x) = -nu (A - theta)(A - other) x, other = 2 Re sigma + 1/nu - theta
+            const CL nu = (CL(1) / (th - S.sigma) + CL(1) / (th - std::conj(S.sigma))) / CL(2);
+            const LD anu = std::abs(nu);
+            const CL other = CL(2 * S.sigma.real()) + CL(1) / nu - th;
+            const LD gap = std::abs(th - other);
+            const LD r_other = (S.A * x - other * x).norm();
+            if (op.tol <= 1e-6L && gap > 1e-6L * (S.normA + std::abs(S.sigma)))
+            {
+                L.count("complex_shift_root_choice_checked");
+                if (r_other < 1e-3L * gap && r > 0.5L * gap)
+                    R.v("wrong-root", "pair " + num(i) + ": reported (" + gnum(th.real()) + "," + gnum(th.imag()) + ") has residual " + gnum(r) + " while the other root of the back-transformation (" + gnum(other.real()) + "," + gnum(other.imag()) + ") has residual " + gnum(r_other));
+            }
+            if (gap <= 1e-2L * (S.normA + std::abs(S.sigma)))
+            {
+                // (near-)degenerate back-transformation: both roots coincide, nu'(lambda) = 0 and the operator's eigenspace
+                // can be larger than A's; outside what a residual bound can state - finiteness and unit norm only
+                L.count("complex_shift_degenerate_root_skipped");
+                continue;
+            }
+            MatCL Rm = S.A - other * MatCL::Identity(S.n, S.n);
+            Eigen::FullPivLU<MatCL> lu(Rm);
+            LD resolv = std::numeric_limits<LD>::infinity();
+            if (lu.isInvertible()) resolv = fro(lu.inverse());
+            bound = S.normM * resolv * (op.tol * std::max(eps23, anu) / anu + 1e3L * u * S.cond_shifted * S.inv_norm_shifted / anu) + 1e3L * u * S.normA;
+            if (!(bound < 1e-3L * (S.normA + std::abs(S.sigma)))) L.count("complex_shift_weak_bound");
         }
         L.ratio("residual", r / bound);
         if (!(r <= bound))
@@ -509,15 +584,22 @@ inline void oracle_pairs(const Subject& S, const OpDesc& op, const Obs& o, Repor
     }
     else if (check_distinct)
     {
-        // distinct returned pairs are distinct eigenpairs: equal eigenvalues must come with independent vectors
+        // distinct returned pairs are distinct eigenpairs: a SIMPLE eigenvalue of A (well separated from the rest of the
+        // reference spectrum) must not be handed back twice with the same vector.  (For multiple / defective eigenvalues
+        // parallel vectors are what the projected eigenproblem delivers and the property does not exclude them;
+        // an eigenvalue overwritten by a copy of its neighbour fails the residual test of the neighbour's vector.)
         for (long i = 0; i < k; i++)
             for (long j = i + 1; j < k; j++)
                 if (std::abs(o.evals[i] - o.evals[j]) <= 1e3L * u * S.normA)
                 {
+                    int close = 0;
+                    for (int q = 0; q < S.ref.size(); q++)
+                        if (std::abs(S.ref[q] - o.evals[i]) <= 1e-3L * std::max<LD>(S.normA, 1e-300L)) close++;
+                    L.count("equal_eigenvalue_pairs");
+                    if (close != 1) continue;
                     const VecCL xi = o.evecs.col(i), xj = o.evecs.col(j);
                     const LD c = std::abs(xi.dot(xj)) / (xi.norm() * xj.norm());
-                    L.count("equal_eigenvalue_pairs");
-                    if (c > 1 - 1e-6L) R.v("duplicate-pair", "pairs " + num(i) + "," + num(j) + " have the same eigenvalue and parallel vectors (|cos|=" + gnum(c) + ")");
+                    if (c > 1 - 1e-6L) R.v("duplicate-pair", "pairs " + num(i) + "," + num(j) + " both carry the simple eigenvalue (" + gnum(o.evals[i].real()) + "," + gnum(o.evals[i].imag()) + ") with parallel vectors (|cos|=" + gnum(c) + ")");
                 }
     }
 }
@@ -560,7 +642,9 @@ inline void oracle_consistency(const Subject& S, const OpDesc& op, const Obs& be
             R.v("ordering", std::string("values not in ") + rule_name(op.sorting) + " order at position " + num(i) + ": " + gnum(o.evals[i].real()) + "," + gnum(o.evals[i].imag()) + " before " + gnum(o.evals[i + 1].real()) + "," + gnum(o.evals[i + 1].imag()));
     }
     // pairing: the Rayleigh quotient of column i is nearest to value i among well separated returned values
-    if (o.evecs.cols() == k && o.evecs.rows() == S.n)
+    // (complex shift with a coarse tolerance: the root of the back-transformation cannot be identified from an
+    //  inaccurate vector - same restriction as the root-choice test of C02)
+    if (o.evecs.cols() == k && o.evecs.rows() == S.n && !(S.shift_mode == 2 && op.tol > 1e-6L))
         for (long i = 0; i < k; i++)
         {
             const VecCL x = o.evecs.col(i);
@@ -572,7 +656,13 @@ inline void oracle_consistency(const Subject& S, const OpDesc& op, const Obs& be
             {
                 if (j == i) continue;
                 const LD sep = std::abs(o.evals[i] - o.evals[j]);
-                if (sep <= 4 * resid + 1e3L * S.eps * (S.normA + std::abs(S.sigma) + (S.shift_mode ? S.norm_shifted * S.cond_shifted : LD(0)))) continue;
+                if (sep <= 100 * resid + 1e3L * S.eps * (S.normA + std::abs(S.sigma) + (S.shift_mode ? S.norm_shifted * S.cond_shifted : LD(0))) +
+                        10 * op.tol * (S.normA + std::abs(S.sigma)) * (S.shift_mode ? std::max<LD>(1, S.cond_shifted) : LD(1))) continue;
+                // copies of a multiple / clustered / defective eigenvalue cannot be told apart by their vectors
+                int close = 0;
+                for (int q = 0; q < S.ref.size(); q++)
+                    if (std::abs(S.ref[q] - o.evals[i]) <= 1e-2L * (S.normA + std::abs(S.sigma)) + 2 * sep) close++;
+                if (close >= 2) continue;
                 L.count("pairing_checked");
                 if (std::abs(rho - o.evals[i]) > std::abs(rho - o.evals[j]))
                     R.v("pairing", "column " + num(i) + " has Rayleigh quotient " + gnum(rho.real()) + " closer to value " + num(j) + " (" + gnum(o.evals[j].real()) + ") than to its own (" + gnum(o.evals[i].real()) + ")");
